@@ -85,7 +85,7 @@ def c05ops : Handler :=
   mkHandler (do let s ← rdStart; let ops ← Rd.list rdOp; pure (s, ops)) rdC05Obs
     (fun (s, ops) => Pred.C05.modelObs s ops)
     (fun (s, ops) o => Pred.C05.pred s ops o)
-    (fun (s, _) => Pred.C05.wf s)
+    (fun (s, ops) => Pred.C05.wf s && Pred.C05.finalWf s ops)
 
 def handlers : List (String × Handler) := [("c02.parse", c02parse), ("c05.ops", c05ops)]
 end Rtp.Kinds.CoreB
